@@ -16,21 +16,29 @@ def queries():
     # (1) kernels, full domain
     for k in ('write8', 'write16', 'extract8', 'extract16'):
         qs.append(Q('kernel_%s' % k, 'C01_kernel.c', 'utf.cpp', defs={'KERNEL_' + k.upper(): 1}, unwind=6, bound={'kernel': k, 'domain': 'all Unicode scalar values'}))
-    # (2) sequences of scalars of every concrete shape through each pair; the validation mode is symbolic
+    # (2) sequences of scalars of every concrete shape through each pair; the validation mode is symbolic (all three in one query)
     for tier, K in (('quick', 2), ('thorough', 3)):
         for src, dst in cc.PAIRS + cc.WCHAR_PAIRS:
             for shp in cc.shapes(src, K if src != 'l1' else (4 if tier == 'quick' else 8)):
                 n = sum(shp)
-                for mode in ([None] if src == 'l1' else [0, 1, 2]):
-                    nm = 'seq_%s_%s_%s_m%s_%s' % (src, dst, ''.join(map(str, shp)), mode, tier)
-                    qs.append(Q(nm, 'conv.c', 'utf.cpp', defs=cc.conv_defs(src, dst, n, mode, scalars=shp), unwind=n + 2, hunwind=4 * n + 4, tiers=(tier,),
-                                bound={'pair': '%s->%s' % (src, dst), 'shape (encoded length of each scalar)': list(shp), 'mode': mode}, timeout=300 if tier == 'quick' else 1500))
-    # (3) chains A -> B -> A
-    for tier, K in (('quick', 2), ('thorough', 3)):
+                # quick tier budget: the wchar_t aliases and the Latin-1 / UTF-16->UTF-8 directions run a representative subset of shapes
+                if tier == 'quick' and (src, dst) in (('u8', 'wc'), ('u8', 'l1')) and shp not in ((1, 4), (3, 2), (2, 1), (4, 3)): continue
+                if tier == 'quick' and (src, dst) == ('u16', 'u8') and shp not in ((1, 2), (2, 1)): continue
+                d = cc.conv_defs(src, dst, n, None, scalars=shp)
+                # a Latin-1 target can reject (value >= 0x100) only if the shape admits such a value
+                if dst == 'l1' and src == 'u8' and max(shp) < 2: d.pop('EXPECT_THROW', None)
+                nm = 'seq_%s_%s_%s_%s' % (src, dst, ''.join(map(str, shp)), tier)
+                qs.append(Q(nm, 'conv.c', 'utf.cpp', defs=d, unwind=n + 2, hunwind=max(4 * n + 4, 18), tiers=(tier,),
+                            bound={'pair': '%s->%s' % (src, dst), 'shape (encoded length of each scalar)': list(shp), 'mode': 'symbolic: all three'}, timeout=400 if tier == 'quick' else 1500))
+    # (3) chains A -> B -> A (implied by (2) in both directions; run on the real composition for selected shapes in quick, all K=2 shapes + selected K=3 in thorough)
+    QSH = {'u8': [(4, 1)], 'u16': [(2, 1)], 'u32': [(1, 1)], 'l1': [(1, 1, 1, 1)]}
+    TSH = {'u8': cc.shapes('u8', 2) + [(4, 4, 4), (1, 4, 2), (3, 3, 1)], 'u16': cc.shapes('u16', 3), 'u32': [(1, 1, 1)], 'l1': [(1,) * 8]}
+    for tier, SH in (('quick', QSH), ('thorough', TSH)):
         for a, b in (('u8', 'u16'), ('u8', 'u32'), ('u16', 'u32'), ('u16', 'u8'), ('u32', 'u8'), ('u32', 'u16'), ('u8', 'wc'), ('u16', 'wc'), ('l1', 'u8'), ('l1', 'u16'), ('l1', 'u32'), ('l1', 'wc')):
-            for shp in cc.shapes(a, K if a != 'l1' else (4 if tier == 'quick' else 8)):
+            if (b == 'u8' or (a, b) in (('u8', 'wc'), ('u16', 'wc'), ('u8', 'u16'))) and tier == 'quick': continue   # second leg over a symbolic-length UTF-8 intermediate: > 400 s, thorough only (K=1..2)
+            for shp in (SH[a] if b != 'u8' else {'u16': [(1,), (2,), (1, 1)], 'u32': [(1,), (1, 1)], 'l1': [(1, 1)]}[a]):
                 n = sum(shp)
                 qs.append(Q('chain_%s_%s_%s_%s' % (a, b, ''.join(map(str, shp)), tier), 'C01_chain.c', 'utf.cpp',
                             defs={'A': cc.CODE[a], 'B': cc.CODE[b], 'AN': a, 'BN': b, 'N': n, 'SHAPE_K': len(shp), 'SHAPE_LENS': '{' + ','.join(map(str, shp)) + '}'},
-                            unwind=n + 2, hunwind=4 * n + 4, tiers=(tier,), bound={'chain': '%s->%s->%s' % (a, b, a), 'shape': list(shp)}, timeout=300 if tier == 'quick' else 1500))
+                            unwind=n + 2, hunwind=max(4 * n + 4, 18), tiers=(tier,), bound={'chain': '%s->%s->%s' % (a, b, a), 'shape': list(shp), 'modes': 'symbolic, independent per leg'}, timeout=400 if tier == 'quick' else 1500))
     return qs
